@@ -268,11 +268,14 @@ closed:
 		err = clnt.err
 	}
 	clnt.Unlock()
-	for ; r != nil; r = r.next {
+	for r != nil {
+		// the caller may recycle r (clearing r.next) as soon as it is completed
+		next := r.next
 		r.Err = err
 		if r.Done != nil {
 			r.Done <- r
 		}
+		r = next
 	}
 
 	clnts.Lock()
